@@ -139,7 +139,7 @@ func suiteTotality(R *runner, r *rng) {
 			Human: map[string]interface{}{"reader": rd.name, "input": desc, "len": len(data)}}
 		if res != "" {
 			o.Oracle = rd.name + " reader: " + res
-			o.Sig = "total-read-" + strings.SplitN(rd.name, "(", 2)[0]
+			o.Sig = "total-read-" + strings.SplitN(rd.name, "(", 2)[0] + siteOf(res)
 			o.Human.(map[string]interface{})["bytes"] = fmt.Sprintf("%q", string(data[:minInt(len(data), 2500)]))
 		}
 		R.add(o)
@@ -237,7 +237,7 @@ func suiteTotality(R *runner, r *rng) {
 		res := guarded(func() { _, err = astisub.OpenFile(path) }, 5*time.Second)
 		o := &obs{Suite: "total", Group: "total.open", NoModel: true, NT: res == "" && err == nil, Input: fmt.Sprintf("open %s %s", ext, hashBytes(data)), Human: map[string]interface{}{"ext": ext, "source_format": d.format, "len": len(data)}}
 		if res != "" {
-			o.Oracle, o.Sig = "OpenFile("+ext+"): "+res, "total-open"
+			o.Oracle, o.Sig = "OpenFile("+ext+"): "+res, "total-open"+siteOf(res)
 			o.Human.(map[string]interface{})["bytes"] = fmt.Sprintf("%q", string(data[:minInt(len(data), 2500)]))
 		}
 		os.Remove(path)
@@ -258,7 +258,7 @@ func suiteTotality(R *runner, r *rng) {
 		o := &obs{Suite: "total", Group: "total.write." + f.name, NoModel: true, NT: res == "" && err == nil, Input: fmt.Sprintf("write %s seed %d", f.name, seed),
 			Human: map[string]interface{}{"writer": f.name, "metadata_nil": s.Metadata == nil, "styles_nil": s.Styles == nil, "regions_nil": s.Regions == nil, "cues": len(s.Items), "list": describeRich(s)}}
 		if res != "" {
-			o.Oracle, o.Sig = f.name+" writer: "+res, "total-write-"+f.name
+			o.Oracle, o.Sig = f.name+" writer: "+res, "total-write-"+f.name+siteOf(res)
 		}
 		R.add(o)
 	}
@@ -292,4 +292,16 @@ func tsSampleDocs(r *rng) []sampleDoc {
 		return tsSampleDocsFn(r)
 	}
 	return nil
+}
+
+// "@function" of the innermost library frame named in a guarded() result
+func siteOf(res string) string {
+	if i := strings.LastIndex(res, " at "); i >= 0 {
+		fn := res[i+4:]
+		if k := strings.Index(fn, " ("); k > 0 {
+			fn = fn[:k]
+		}
+		return "@" + fn
+	}
+	return ""
 }
